@@ -341,6 +341,7 @@ class YP(object):
 
     def asserta(self, term):
         '''asserta(Term) adds Term to the facts database at the beginning.'''
+        term = get_value(term)
         if isinstance(term, Functor):
             self.assert_fact(self.atom(term._name), term._args, False)
         elif isinstance(term, Atom):
@@ -349,6 +350,7 @@ class YP(object):
 
     def assertz(self, term):
         '''assertz(Term) adds Term to the facts database at the end.'''
+        term = get_value(term)
         if isinstance(term, Functor):
             self.assert_fact(self.atom(term._name), term._args)
         elif isinstance(term, Atom):
@@ -357,6 +359,7 @@ class YP(object):
 
     def retract(self, term):
         '''retract(Term) removes all dynamic facts matching Term and backtracks over identical clauses.'''
+        term = get_value(term)
         if isinstance(term, Functor):
             name = term._name
             args = term._args
@@ -379,6 +382,7 @@ class YP(object):
 
     def retractall(self, term):
         '''retractall(Term) removes all dynamic facts matching Term, without backtracking over identical clauses.'''
+        term = get_value(term)
         if isinstance(term, Functor):
             name = term._name
             args = term._args
